@@ -15,6 +15,18 @@ class MPU(mpu6502.MPU):
             mpu6502.MPU.step(self)
         return self
 
+    def reset(self):
+        mpu6502.MPU.reset(self)
+        self.waiting = False
+
+    def irq(self):
+        self.waiting = False
+        mpu6502.MPU.irq(self)
+
+    def nmi(self):
+        self.waiting = False
+        mpu6502.MPU.nmi(self)
+
     # Make copies of the lists
     instruct = mpu6502.MPU.instruct[:]
     cycletime = mpu6502.MPU.cycletime[:]
